@@ -14,7 +14,7 @@ def run(ck, build):
             "init = (L = 0, R = 0); padding 0x01 then zeros at the buffer position; digest = LE32(L') || LE32(R')")
     ck.rule("R-C10-BLOCKS", "the 16-byte blocks compressed are exactly the consecutive 16-byte groups of the message (C11's streaming rules): for each of the 16 buffer positions and every "
             "length class the block contents are tracked byte for byte")
-    ck.rule("R-C10-SMALL", "independent of the loop structure: for each of the 16 buffer positions and EVERY input length 0..48 (each one straight path with symbolic data) update performs exactly "
+    ck.rule("R-C10-SMALL", "independent of the loop structure: for each of the 16 buffer positions and EVERY input length 0..100 (each one straight path with symbolic data) update performs exactly "
             "the MDPH compressions of the complete 16-byte blocks of (buffered bytes || input), in order, on the chained value (20 rounds, key R || M, inputs L and L^1)")
     ck.rule("R-C10-PERM", "the 256-bit C permutation backend equals the bit-serial NLFSR for every round count (C05's rule)")
     ck.not_decided += ["digest values (nothing is computed); the transcription of the MDPH description in tj/rules/hashlib.py is trusted",
